@@ -319,3 +319,60 @@ func VerifC03DeleteMap() {
 	}
 	verifCover("C03/map/end")
 }
+
+// VerifC03DeleteIntKeyMap: maps whose keys are integers in any YAML spelling: del removes exactly the entries the
+// selection expression selects (by position or by value) and nothing else.
+func VerifC03DeleteIntKeyMap() {
+	spell := []string{"1", "2", "0x1F", "0o17", "1_0", "-3"}
+	k1 := spell[verifChoice("k1", len(spell))]
+	k2 := spell[verifChoice("k2", len(spell))]
+	if k1 == k2 {
+		return
+	}
+	v1, v2 := verifStrN("v1", 1, "03"), verifStrN("v2", 1, "03")
+	build := func() *CandidateNode {
+		return vDoc(vMap(vS("!!int", k1), vInt(v1), vS("!!int", k2), vInt(v2)))
+	}
+	selKind := verifChoice("selection", 3)
+	var selExpr string
+	switch selKind {
+	case 0:
+		selExpr = ".[] | select(. == 7770003)"
+	case 1:
+		selExpr = ".[1]"
+	default:
+		selExpr = ".[] | select(key == 31)"
+	}
+	v := verifStrN("v", 1, "03")
+	subst := func(e *ExpressionNode) { vSubst(e, "7770003", "!!int", v) }
+	a := build()
+	sExp := vParse(selExpr)
+	subst(sExp)
+	selA, errSel := c03EvalReadOnly(sExp, a)
+	b := build()
+	snap := c03Snapshot(b)
+	dExp := vParse("del(" + selExpr + ")")
+	subst(dExp)
+	res, errDel := vEval(dExp, b)
+	label := "int-key-map sel=" + []string{"select-eq", "index", "select-key"}[selKind]
+	verifAssert(verifAnd(errSel == nil, errDel == nil), "C03/del-error "+label)
+	if errSel != nil || errDel != nil {
+		return
+	}
+	var sel [][]int
+	for _, sn := range vNodes(selA) {
+		if pos, ok := c03FindPos(a, sn, nil); ok && len(pos) > 0 && pos[0] < 4 {
+			sel = append(sel, pos)
+		}
+	}
+	verifAssert(res.Len() == 1, "C03/result-count "+label)
+	if res.Len() != 1 {
+		return
+	}
+	got := vDump(res.Front().Value.(*CandidateNode))
+	want := c03ExpectedDump(snap, nil, sel)
+	verifObserve("got", got)
+	verifObserve("want", want)
+	verifAssert(verifEqStr(got, want), "C03/exactly-the-selection "+label)
+	verifCover("C03/intmap/end")
+}
